@@ -196,7 +196,7 @@ func TestVerifC01(t *testing.T) {
 	defer r.Write(t)
 	tokN, chrN := 3, 3
 	if vThorough() {
-		tokN, chrN = 4, 4
+		tokN, chrN = 5, 5
 	}
 	r.Bounds["byte_strings_up_to"] = 2
 	r.Bounds["inline_fragments"] = len(c01Inline) + 6
